@@ -136,6 +136,10 @@ def gen1(seed, attempt):
     if nested and rng.random() < 0.1:
         roots = [rng.choice(nested)] + roots
     opt = {'roots': roots}
+    if rng.random() < 0.25:
+        # --test-path: searched, but not put on sys.path (what cannot be imported from there
+        # is still a test module: it is reported as an import problem)
+        opt['root_kinds'] = [rng.choice(['path', 'test-path']) for _ in roots]
     if rng.random() < 0.3:
         opt['tests_pattern'] = rng.choice(['^(tests|ftests)$', 'tests$', '^f?tests$'])
     if rng.random() < 0.3:
@@ -148,7 +152,7 @@ def gen1(seed, attempt):
     if rng.random() < 0.2:
         opt['ignore_dir'] = ['skipme'] + ([rng.choice(['ftests', 'sub1'])]
                                           if rng.random() < 0.3 else [])
-    if rng.random() < 0.15 and roots == ['root']:
+    if rng.random() < 0.15 and roots == ['root'] and not opt.get('root_kinds'):
         cands = [t['name'] for t in tops if '__init__.py' in t['files']]
         if cands:
             opt['s'] = [rng.choice(cands)]
@@ -193,10 +197,14 @@ def model(tree, opt, ext=None):
                 continue
             visit(rel + '/' + dn, d)
 
+    kinds = opt.get('root_kinds') or ['path'] * len(roots)
+    # (the runner searches the --test-path entries before the --path entries)
+    ordered = [r for r, k in zip(roots, kinds) if k == 'test-path'] + \
+        [r for r, k in zip(roots, kinds) if k != 'test-path']
     if opt.get('s'):
         walk_roots = ['root/' + p for p in opt['s']]
     else:
-        walk_roots = roots
+        walk_roots = ordered
     for r in walk_roots:
         visit(r, nodes[r])
     # module names: relative to the longest root prefix
@@ -237,8 +245,9 @@ def run(spec, ctx):
     fssim.materialise(spec['tree'], top, order_rng=rng)
     has_links = any(node.get('links') for _, node in fssim.walk_tree(spec['tree']))
     args = []
-    for r in opt['roots']:
-        args += ['--path', os.path.join(top, r)]
+    kinds = opt.get('root_kinds') or ['path'] * len(opt['roots'])
+    for r, kind in zip(opt['roots'], kinds):
+        args += ['--' + kind, os.path.join(top, r)]
     if opt.get('tests_pattern'):
         args += ['--tests-pattern', opt['tests_pattern']]
     if opt.get('test_file_pattern'):
